@@ -769,11 +769,17 @@ def _not_aliased(ctx, rule):
     return c01.r11_sections_not_aliased(ctx, rule)
 
 
+def _scorer_state_per_object(ctx, rule):
+    # what a scorer holds after loading is what the files of ITS ruleset say (seed C07-k: the length-indexed tables moved to the
+    # class body, so a scorer loaded later kept the lengths of the ruleset loaded before)
+    from . import c13
+    return c13.r11_no_shared_class_state(ctx, rule)
+
 def rules(tier):
     return [('C07.R1', r1_separator_inclusion), ('C07.R2', lambda c, r: r2_encoding_agreement(c, r)),
             ('C07.R3', r3_record_layout), ('C07.R5', r5_strip_discipline), ('C07.R6', r6_wipe_before_write),
             ('C07.R7', r7_paths_written), ('C07.R8', c04.r5_grouping_kernel), ('C07.R9', lambda c, r: c03.r1_tag_chain(c, r, scope='disk')),
-            ('C07.R10', r10_loader_complete), ('C07.R11', _renorm), ('C07.R12', _not_aliased), ('C07.R13', r13_recorded_encoding_verbatim)]
+            ('C07.R10', r10_loader_complete), ('C07.R11', _renorm), ('C07.R12', _not_aliased), ('C07.R13', r13_recorded_encoding_verbatim), ('C07.R14', _scorer_state_per_object)]
 
 
 META = {
